@@ -734,6 +734,142 @@ func c16Republish(c *fw.Ctx, i int) {
 	}
 }
 
+// c16LatePush: the relay-push target answers the publish command only AFTER the input has left
+// (push sessions are established asynchronously, so this is the slow-target case of an ordinary
+// publisher that leaves early). Whatever lal does with the late session, once the input is gone no
+// push connection may stay open and the target must not be left with a publisher.
+func c16LatePush(c *fw.Ctx, i int) {
+	r := c.Rng
+	root := filepath.Join(c.Scratch, fmt.Sprintf("c16lp-%d", i))
+	os.MkdirAll(root, 0755)
+	defer os.RemoveAll(root)
+	var mu sync.Mutex
+	hold := map[int]chan struct{}{}
+	holdNext := false
+	stub, err := ref.NewRtmpStub(func(n int) ref.StubBehaviour {
+		mu.Lock()
+		defer mu.Unlock()
+		if holdNext {
+			ch := make(chan struct{})
+			hold[n] = ch
+			return ref.StubBehaviour{WithholdStatus: ch}
+		}
+		return ref.StubBehaviour{}
+	})
+	if err != nil {
+		c.Inconclusive("push stub: %v", err)
+		return
+	}
+	defer stub.Close()
+	conf := srv.Conf{RtmpGop: 1, Flv: true, Api: true, PushAddrs: []string{stub.Addr}}
+	s, err := srv.Start(conf, root)
+	if err != nil {
+		c.Inconclusive("server start: %v", err)
+		return
+	}
+	defer s.Stop()
+	name := fmt.Sprintf("lp%d", i)
+	rounds := 6
+	for k := 0; k < rounds; k++ {
+		late := k%3 != 2
+		// a subscriber that stays keeps the stream's state alive across the gap; without one lal
+		// discards that state on its next 1 s tick, and the long delay lets that happen first
+		keeper := k%2 == 0
+		delay := time.Duration(r.Intn(40)) * time.Millisecond
+		if !keeper && k%3 == 1 {
+			delay = 1600 * time.Millisecond
+		}
+		way := []string{"close", "kick"}[r.Intn(2)]
+		desc := fmt.Sprintf("round %d: target answers %s the publisher left (%s), subscriber staying=%v, answer delayed %v", k, map[bool]string{true: "after", false: "before"}[late], way, keeper, delay)
+		c.Describe("%s", desc)
+		c.Cell("late-push/late=%v/%s/keeper=%v/long-delay=%v", late, way, keeper, delay > time.Second)
+		var keep *ref.RtmpSubscriber
+		if keeper {
+			keep, _ = ref.StartRtmpSubscriber(s.RtmpAddr(), "live", name, 3*time.Second)
+		}
+		mu.Lock()
+		holdNext = true
+		mu.Unlock()
+		nBefore := len(stub.Snapshot())
+		from := s.Notify.Len()
+		pr, err := ref.StartRtmpPublisher(s.RtmpAddr(), "live", name, 5*time.Second)
+		if err != nil {
+			c.Inconclusive("publisher: %v", err)
+			return
+		}
+		paddr := pr.RC.Conn.LocalAddr().String()
+		ev, ok := s.Notify.WaitSessionFrom(5*time.Second, from, "pub_start", paddr)
+		if !ok {
+			pr.Close()
+			c.Inconclusive("publisher not accepted")
+			return
+		}
+		msgs := gen.BuildAt(c.SubRng(fmt.Sprintf("m%d", k)), k+1, gen.Shape{Name: "lp", Video: true, Audio: true, Meta: true, Gops: 2, GopLen: 4, AudioPerVid: 1}, 0)
+		for _, m := range msgs {
+			pr.RC.Send(ref.RtmpMsg{Csid: csidFor(m.Type), TypeID: m.Type, StreamID: pr.Msid, Ts: m.Ts, Payload: m.Payload}, 0)
+		}
+		// the push attempt is in flight: the target has the publish command and withholds its answer
+		var tgt *ref.StubSession
+		inFlight := srv.WaitFor(4*time.Second, func() bool {
+			for _, ss := range stub.Snapshot()[nBefore:] {
+				if role, _, _ := ss.GetRole(); role == "publish" {
+					tgt = ss
+					return true
+				}
+			}
+			return false
+		})
+		if !inFlight {
+			pr.Close()
+			c.Inconclusive("the relay push never reached the target's publish stage | %s", desc)
+			return
+		}
+		release := func() {
+			mu.Lock()
+			if ch, ok := hold[tgt.N]; ok {
+				close(ch)
+				delete(hold, tgt.N)
+			}
+			mu.Unlock()
+		}
+		if !late {
+			release()
+			srv.WaitFor(2*time.Second, func() bool { _, _, st := tgt.GetRole(); return st })
+			time.Sleep(20 * time.Millisecond)
+		}
+		if way == "kick" {
+			b, _ := json.Marshal(map[string]string{"stream_name": name, "session_id": ev.SessionId})
+			srv.HttpPostJson(s.ApiAddr(), "/api/ctrl/kick_session", string(b), 3*time.Second)
+		} else {
+			pr.Close()
+		}
+		if _, ok := s.Notify.WaitSessionFrom(5*time.Second, from, "pub_stop", paddr); !ok {
+			pr.Close()
+			c.Inconclusive("pub_stop not observed | %s", desc)
+			return
+		}
+		pr.Close()
+		if late {
+			time.Sleep(delay)
+			release()
+		}
+		c.Eval(1)
+		closed := srv.WaitFor(4*time.Second, tgt.IsClosed)
+		if keep != nil {
+			keep.Close()
+		}
+		if !closed {
+			c.Violate("push-not-closed/late-target", fmt.Sprintf("the relay-push connection to the target is still open 4 s after the input had left and the target had answered | %s", desc), nil)
+			return
+		}
+		c.Count("late_push_closed", 1)
+		mu.Lock()
+		holdNext = false
+		mu.Unlock()
+		time.Sleep(50 * time.Millisecond)
+	}
+}
+
 func c16RemoveMatching(dir, prefix string) {
 	es, _ := os.ReadDir(dir)
 	for _, e := range es {
@@ -1163,7 +1299,7 @@ func init() {
 		},
 		Setup:       c16Setup,
 		CaseTimeout: func(string) time.Duration { return 4 * time.Minute },
-		Rule: "whole-server runs with HLS (disk), FLV and TS recorders, relay push to a stub target, the stream hook and RTMP/FLV/TS consumers. Finalise scenarios (3 of 5 cases with an RTMP publisher; 1 of 5 with an RTSP publisher over interleaved TCP or UDP ended by close / kick / silence / TEARDOWN, outputs checked structurally): 3–5 incarnations of one stream name with changing codec pairs (AVC/HEVC/enhanced HEVC/none × AAC/none); each incarnation is cut at a seeded instant (nothing sent, headers only, right after a key frame, after an audio frame with batched audio pending, mid-stream, complete) by close / API kick / going silent (check interval 2 s) / server Dispose. Observed right after each end: stream-hook OnStop calls = 1 and OnMsg calls = messages published; push target connection closed; exactly one FLV and one TS recording, FLV parses to EOF and equals the published audio/video messages, TS passes the C06 frame oracle to the last video and audio frame (flush); live and record playlists parse, one ENDLIST, every segment file listed and present, segments pass the frame oracle to the last frame; idle publisher gets pub_stop ≤ 2·interval+3 s+2 s and its socket closes; joiners of an incarnation see only its tags, long-lived consumers never see an older incarnation after a newer one; stat codec fields equal the current input's; the group leaves /api/stat/all_group ≤ 8 s after the last session. Re-publish scenarios (1 of 10): cleanup_mode 1/2 with a 1.5 s delayed directory cleanup, a second publisher of the name arriving at once and staying live across the first one's cleanup timer — live playlist and listed segments must be on disk while it is live and finalised when it ends, directory removed after the last end. Resource scenarios (1 of 5): 3 warm-up cycles, baseline goroutines and /proc/self/fd with no session left, 6 (thorough 12) cycles with RTMP/FLV/TS/RTSP-TCP/RTSP-UDP consumers, abandoned RTSP DESCRIBE/SETUP, aborted RTMP handshakes, HLS and API requests, ends by close/kick/consumers-first; growth ≥ 1 per 2 cycles is a leak. cell = end way × end instant × codec pair.",
+		Rule: "whole-server runs with HLS (disk), FLV and TS recorders, relay push to a stub target, the stream hook and RTMP/FLV/TS consumers. Finalise scenarios (3 of 5 cases with an RTMP publisher; 1 of 5 with an RTSP publisher over interleaved TCP or UDP ended by close / kick / silence / TEARDOWN, outputs checked structurally): 3–5 incarnations of one stream name with changing codec pairs (AVC/HEVC/enhanced HEVC/none × AAC/none); each incarnation is cut at a seeded instant (nothing sent, headers only, right after a key frame, after an audio frame with batched audio pending, mid-stream, complete) by close / API kick / going silent (check interval 2 s) / server Dispose. Observed right after each end: stream-hook OnStop calls = 1 and OnMsg calls = messages published; push target connection closed; exactly one FLV and one TS recording, FLV parses to EOF and equals the published audio/video messages, TS passes the C06 frame oracle to the last video and audio frame (flush); live and record playlists parse, one ENDLIST, every segment file listed and present, segments pass the frame oracle to the last frame; idle publisher gets pub_stop ≤ 2·interval+3 s+2 s and its socket closes; joiners of an incarnation see only its tags, long-lived consumers never see an older incarnation after a newer one; stat codec fields equal the current input's; the group leaves /api/stat/all_group ≤ 8 s after the last session. Re-publish scenarios (1 of 10): cleanup_mode 1/2 with a 1.5 s delayed directory cleanup, a second publisher of the name arriving at once and staying live across the first one's cleanup timer — live playlist and listed segments must be on disk while it is live and finalised when it ends, directory removed after the last end. Late-push scenarios (1 of 10): the push target withholds its answer to `publish` until the publisher has left by close or kick (and, alternately, answers in time) — its connection must be closed within 4 s either way. Resource scenarios (1 of 5): 3 warm-up cycles, baseline goroutines and /proc/self/fd with no session left, 6 (thorough 12) cycles with RTMP/FLV/TS/RTSP-TCP/RTSP-UDP consumers, abandoned RTSP DESCRIBE/SETUP, aborted RTMP handshakes, HLS and API requests, ends by close/kick/consumers-first; growth ≥ 1 per 2 cycles is a leak. cell = end way × end instant × codec pair.",
 		Assumptions: []string{"recording and HLS files of one incarnation are inspected and then removed by the harness before the next incarnation starts (lal names recordings by second, so back-to-back incarnations would otherwise share a file name)", "goroutine and descriptor counts include the harness's own; every harness connection is closed before counting and only growth proportional to the number of cycles is judged"},
 		MinCells: 10,
 		Run: func(c *fw.Ctx, i int) {
@@ -1173,6 +1309,8 @@ func init() {
 				c16FinaliseRtsp(c, i)
 			} else if i%10 == 7 {
 				c16Republish(c, i)
+			} else if i%10 == 2 {
+				c16LatePush(c, i)
 			} else {
 				c16Finalise(c, i)
 			}
